@@ -73,8 +73,11 @@ impl DnsRouteHandler {
                     if !msg.in_query.rd {
                         // We will only forward queries when requested to do so.
                         Err(Error::NotAuthoritative)
+                    } else if let Some(server) = dest.first() {
+                        self.next.handle_query(msg, *server).await
                     } else {
-                        self.next.handle_query(msg, dest[0]).await
+                        /* A forward route that lists no servers can't forward anywhere. */
+                        Err(Error::NoRouteConfigured)
                     }
                 }
                 Handler::ForgeNxDomain => Err(Error::Blocked),
